@@ -190,7 +190,7 @@ def scene_source(step, salt=0):
 WAVELENGTHS = [500.0, 600.0, 700.0]
 
 
-def write(detector, spec, salt=0):
+def write(detector, spec, salt=0, spec_odd=None):
     """Writer probe.  spec: {bucket: options}; buckets missing from spec are not touched.
       photon: {"dtype": "float64", "wl": 0|2|3, "const": bool, "mul": k}
       charge: {"how": "array"|"clusters"}
@@ -203,6 +203,8 @@ def write(detector, spec, salt=0):
 
     shape = tuple(detector.geometry.shape)
     step = int(detector.pipeline_count)
+    if spec_odd is not None and step % 2 == 1:
+        spec = spec_odd               # a different write pattern in odd steps
     for b, opt in spec.items():
         opt = opt if isinstance(opt, dict) else {}
         st = 0 if opt.get("const") else step
@@ -219,7 +221,10 @@ def write(detector, spec, salt=0):
                 detector.photon.array = v.astype(dt)
         elif b == "charge":
             v = value_for("charge", st, shape, salt) * mul
-            if opt.get("how", "array") == "clusters":
+            how = opt.get("how", "array")
+            if how in ("array", "both"):
+                detector.charge.add_charge_array(v)
+            if how in ("clusters", "both"):
                 geo = detector.geometry
                 rows, cols = shape
                 n = rows * cols
@@ -230,8 +235,6 @@ def write(detector, spec, salt=0):
                     init_ver_position=(yy.ravel() + 0.5) * geo.pixel_vert_size,
                     init_hor_position=(xx.ravel() + 0.5) * geo.pixel_horz_size,
                     init_z_position=z, init_ver_velocity=z, init_hor_velocity=z, init_z_velocity=z)
-            else:
-                detector.charge.add_charge_array(v)
         elif b == "pixel":
             v = value_for("pixel", st, shape, salt) * mul
             dt = opt.get("dtype", "float64")
